@@ -618,11 +618,15 @@ def check_C08(history, worker_table=None):
                         listed.add(net)
                     else:
                         shared_listed = True
-                producers = set()
+                producers, own_producers = set(), set()
                 for e in ended:
                     pst = next(x["start"] for x in execs if x["start"]["serial"] == e["serial"])
                     if e["status"] in ("PASS", "WARN") and any(s["obj"] == need["obj"] and s["state"] == need["state"] for s in pst["sets"]):
                         producers.add(e["worker"])
+                        # the setup test of this test is the producer on the same variants of the vms they share; another
+                        # variant combination that happens to leave the same state of the same object is not its setup
+                        if same_shared_variants(pst["name"], st["name"]):
+                            own_producers.add(e["worker"])
                 extra = listed - producers
                 # replayed previous results legitimately name their workers
                 extra = {w for w in extra if (w, need["obj"], need["state"]) not in replayed and not replayed_any(replayed, w)}
@@ -630,7 +634,7 @@ def check_C08(history, worker_table=None):
                     out.append(V("C08", "spurious-source",
                                  f"{st['label']} is told to fetch {need['state']} from a worker that did not produce it",
                                  worker=wid, listed=sorted(listed), producers=sorted(producers), seq=st["seq"]))
-                missing = producers - listed
+                missing = own_producers - listed
                 if missing:
                     out.append(V("C08", "missing-source",
                                  f"{st['label']} is not told about a worker that produced {need['state']}",
@@ -650,6 +654,20 @@ def check_C08(history, worker_table=None):
                                              worker=wid, src=src, key=key, got=access.get(f"{key}_{src}"), want=value,
                                              seq=st["seq"]))
     return dedup(out)
+
+
+def vm_variants_of(name):
+    """vm -> variant part of a full test name ('.vms.vm1.<variant>.nets...vm2.<variant>...')."""
+    out = {}
+    tail = name.split(".vms.", 1)[1] if ".vms." in name else ""
+    for m in re.finditer(r"(?:^|\.)(vm\d+)\.(.*?)\.nets\.", tail):
+        out[m.group(1)] = m.group(2)
+    return out
+
+
+def same_shared_variants(producer_name, consumer_name):
+    a, b = vm_variants_of(producer_name), vm_variants_of(consumer_name)
+    return all(a[vm] == b[vm] for vm in a if vm in b)
 
 
 def replayed_passers(history, epoch):
